@@ -246,6 +246,14 @@ class Tree:
                 os.makedirs(real)
                 paths[t] = real
                 rec(t, real)
+            if getattr(self, 'hardlinks', False) and self.nodes[t]['k'] == 'f':
+                # update/save cases: a second name of a file is a hard link, which is what the model's second
+                # edge to the inode means also when one of the names is unlinked or renamed
+                try:
+                    os.link(paths[t], p)
+                    continue
+                except OSError:
+                    pass
             os.symlink(paths[t], p)
         return paths
 
@@ -450,8 +458,13 @@ POLICIES = {0: None, 1: lambda e: False, 2: lambda e: True, 3: lambda e: None,
             4: lambda e: (len(e.path) % 2 == 0)}
 
 
+STAMP_NS = 1600000000 * 10**9
+LAST_STAMPS = []
+
+
 def run_impl(base, top, opts, allow_create, allow_xdev, ops, order_key, real_faults=()):
     """run the operation sequence on the implementation; results in the model's shape"""
+    del LAST_STAMPS[:]
     import gemato.recursiveloader as rl
     import gemato.profile as gp
     import gemato.util as gu
@@ -527,6 +540,22 @@ def run_impl(base, top, opts, allow_create, allow_xdev, ops, order_key, real_fau
                         out.append(['ok', list_real_files(base)])
                     finally:
                         FaultInjector.suspended = False
+                elif op[0] == 'stamp':
+                    # record bytes + st_mtime_ns of every file, then age all files so that a later write shows
+                    FaultInjector.suspended = True
+                    try:
+                        snap = {}
+                        for dp, dn, fn in os.walk(base):
+                            for f in fn:
+                                q = os.path.join(dp, f)
+                                if os.path.islink(q) or not os.path.isfile(q):
+                                    continue
+                                snap[os.path.relpath(q, base)] = (open(q, 'rb').read(), os.stat(q).st_mtime_ns)
+                                os.utime(q, ns=(STAMP_NS, STAMP_NS))
+                        LAST_STAMPS.append(snap)
+                    finally:
+                        FaultInjector.suspended = False
+                    out.append(['ok', []])
                 elif op[0] == 'manifests':
                     out.append(['ok', [[k, [impl.entry_sx(e) for e in mf.entries]] for k, mf in m.loaded_manifests.items()]])
                 elif op[0] == 'updated':
